@@ -143,9 +143,9 @@ theorem mutex_blocks {cfg : Cfg} {caps : List Nat} {progs : List (List Op)} {s :
 
 /-- the hypotheses are satisfiable: a sender that found no receiver is inside `notifyOps` (waking a registered
     select) while it holds the mutex of channel 0 -/
-example : ∃ s, Reachable (init .current [0] [[.select [⟨0, false, 0⟩] true], [.send 0 1]]) s ∧
+example : ∃ s, Reachable (init .current [0] [[.select [⟨0, false, 0, false⟩] true], [.send 0 1]]) s ∧
     (s.thread 1).pc.inCS 0 = true ∧ 0 < s.owner.length := by
-  refine ⟨(runSched (init .current [0] [[.select [⟨0, false, 0⟩] true], [.send 0 1]])
+  refine ⟨(runSched (init .current [0] [[.select [⟨0, false, 0, false⟩] true], [.send 0 1]])
       [.step 0, .step 0, .step 1, .step 1]).getD (init .current [] []), ?_, by decide, by decide⟩
   exact reachable_runSched Reachable.init [.step 0, .step 0, .step 1, .step 1] (by decide)
 
@@ -181,13 +181,13 @@ theorem select_commits_enabled_recv (ch : Chan) (tg : Target) (acc : Bool) (hinv
 /-- exactly one: when a poll succeeds, a blocking select records `(index of the polled case, recvOK)` and leaves
     the polling loop for the `endSelect` loop (from where `onRet` only ever goes to the next `endSelect` or returns) -/
 theorem select_commit_records_polled_case (th : Thread) (sl : Sel) (ok : Bool) (cs : Case) (rest : List Case)
-    (hb : sl.blocking = true) (hc : sl.cases = cs :: rest) :
+    (hb : sl.blocking = true) (hc : sl.cases = cs :: rest) (hl : cs.isNil = false) :
     (commitSel th sl ok).sel = some { sl with result := some (sl.idx, ok), idx := 0 } ∧
     (commitSel th sl ok).pc = .at (.endLock cs.c cs.send) := by
-  simp [commitSel, hb, hc]
+  simp [commitSel, hb, hc, nextCase, Case.live, hl]
 
-example : ∃ sl : Sel, sl.blocking = true ∧ sl.cases = [⟨0, true, 5⟩] :=
-  ⟨{ cases := [⟨0, true, 5⟩], blocking := true, sendFirst := true, pass := 0, idx := 0, result := none }, rfl, rfl⟩
+example : ∃ sl : Sel, sl.blocking = true ∧ sl.cases = [⟨0, true, 5, false⟩] :=
+  ⟨{ cases := [⟨0, true, 5, false⟩], blocking := true, sendFirst := true, pass := 0, idx := 0, result := none }, rfl, rfl⟩
 
 example : ChanInv (newChan .current 0) ∧ (Point.recvLock 0 0).secondPhase = false ∧
     (body (.recvLock 0 0) 0 { newChan .current 0 with closed := true }).out = .unlock (.recv 0 false) := by
